@@ -64,8 +64,8 @@ type tev struct {
 	ts    int64
 	xkind string // ok sfx fn
 	// ret / rdyret / return
-	mt, err, ok bool
-	id, u       int
+	mt, err, ok   bool
+	id, u         int
 	prevCancelled bool
 }
 
@@ -109,13 +109,13 @@ type world struct {
 	cancel    context.CancelFunc
 	cancelled bool
 
-	readyCh chan error
-	timer   *fakeTimer
-	sync    chan syncReply
-	execs   []*execRec
-	inRun   bool
-	term    bool
-	runReq  chan struct{}
+	readyCh  chan error
+	timer    *fakeTimer
+	sync     chan syncReply
+	execs    []*execRec
+	inRun    bool
+	term     bool
+	runReq   chan struct{}
 	panicked string
 
 	// observations of the current op
@@ -328,7 +328,7 @@ func (w *world) Synchronize(ctx context.Context, in *remoteworker.SynchronizeReq
 	case <-w.quit:
 		r = syncReply{resp: &remoteworker.SynchronizeResponse{
 			NextSynchronizationAt: timestamppb.New(time.Unix(baseTime, 0)),
-			DesiredState: &remoteworker.DesiredState{WorkerState: &remoteworker.DesiredState_Idle{Idle: &emptypb.Empty{}}},
+			DesiredState:          &remoteworker.DesiredState{WorkerState: &remoteworker.DesiredState_Idle{Idle: &emptypb.Empty{}}},
 		}}
 	}
 	w.mu.Lock()
@@ -680,11 +680,11 @@ func monitor(trace []tev, mode int) string {
 		return n
 	}
 	cancelled := false
-	rdyOK := false         // a successful readiness check since the last request
-	var lastReply *tev     // reply to the most recent request, nil once the next request is sent
-	pendingStart := -1     // digest the scheduler asked to start and that has not been entered yet
-	toldIdle := false      // the last reply (valid) said idle
-	mustStart := false     // the last reply (valid) said execute ok
+	rdyOK := false     // a successful readiness check since the last request
+	var lastReply *tev // reply to the most recent request, nil once the next request is sent
+	pendingStart := -1 // digest the scheduler asked to start and that has not been entered yet
+	toldIdle := false  // the last reply (valid) said idle
+	mustStart := false // the last reply (valid) said execute ok
 	startsSinceReply := 0
 	// "the scheduler cannot believe it is still executing"
 	settled := true
@@ -696,6 +696,14 @@ func monitor(trace []tev, mode int) string {
 			minNs = v
 		}
 	}
+	// The scheduler's own belief, from what it definitely told the worker: after a
+	// valid reply that left the worker executing (an execute instruction, or "no
+	// change" answering a request that reported an action in progress) it believes
+	// the worker is executing until that reply's NextSynchronizationAt + 1 min,
+	// unless a later valid reply instructed/acknowledged idle.
+	believes := false
+	believeUntil := int64(0)
+	beliefBroken := func(now int64) bool { return believes && now <= believeUntil }
 	var lastSent *tev
 	for i := range trace {
 		e := &trace[i]
@@ -814,24 +822,35 @@ func monitor(trace []tev, mode int) string {
 				case "idle":
 					toldIdle = true
 					settled = true
+					believes = false
 				case "exec":
 					if e.xkind == "ok" {
 						mustStart = true
 						pendingStart = e.d
+						believes, believeUntil = true, e.ts+60
 					}
 				case "none":
 					if lastSent != nil && !(lastSent.state == "exec" && lastSent.phase != "done") {
 						settled = true
+						believes = false
+					} else if lastSent != nil {
+						believes, believeUntil = true, e.ts+60
 					}
 				}
 			}
 		case "ret":
+			if e.mt && cancelled && beliefBroken(e.now) {
+				return fmt.Sprintf("shutdown: Run allowed termination at t=%d although the scheduler was last told the worker is executing and believes so until %d (NextSynchronizationAt of that reply + 1 min)", e.now, believeUntil)
+			}
 			if e.mt && cancelled && !(settled || e.now > minNs+60) {
 				return fmt.Sprintf("shutdown: Run allowed termination at t=%d although the scheduler may still think the worker is executing (no settled idle exchange, earliest bound %d)", e.now, minNs+60)
 			}
 		case "term":
 			if !cancelled {
 				return "worker thread terminated although shutdown was never requested"
+			}
+			if beliefBroken(e.now) {
+				return fmt.Sprintf("shutdown: worker thread terminated at t=%d although the scheduler was last told the worker is executing and believes so until %d (NextSynchronizationAt of that reply + 1 min)", e.now, believeUntil)
 			}
 			if !(settled || e.now > minNs+60) {
 				return fmt.Sprintf("shutdown: worker thread terminated at t=%d although the scheduler may still think it is executing (earliest bound %d)", e.now, minNs+60)
@@ -971,11 +990,13 @@ func compare(out *outcome, drv *hx.Driver) {
 // ---- generator ----------------------------------------------------------------------
 
 type gen struct {
-	r      *hx.Rand
-	left   int
-	burst  int
-	digest int
-	rid    int
+	longPolls int
+	plan      [][]string // scripted ops to emit first ("@exec" = execute reply built when it is due)
+	r         *hx.Rand
+	left      int
+	burst     int
+	digest    int
+	rid       int
 }
 
 func (g *gen) ts(now int64) string {
@@ -1047,6 +1068,35 @@ func (g *gen) next(w *world) []string {
 	at := w.at()
 	x := w.runningExec()
 	canExec := x != nil && !x.sending
+	if len(g.plan) > 0 {
+		f := g.plan[0]
+		g.plan = g.plan[1:]
+		if f[0] == "@exec" {
+			if at != "sync" {
+				g.plan = nil
+				return []string{}
+			}
+			g.digest++
+			return []string{"reply", strconv.FormatInt(w.now+int64(g.r.Intn(3)), 10), "exec", strconv.Itoa(g.digest), "ok"}
+		}
+		return f
+	}
+	// Long poll: the blocking Synchronize of an idle worker returns an action
+	// more than a minute after the previous deadline, and shutdown begins
+	// during the poll or right after it (before the next successful sync).
+	if at == "sync" && x == nil && !w.cancelled && g.r.Chance(1, 12) {
+		g.longPolls++
+		wait := []string{"tick", strconv.Itoa(61 + g.r.Intn(90))}
+		switch g.r.Intn(3) {
+		case 0:
+			g.plan = [][]string{wait, {"cancel"}, {"@exec"}}
+		case 1:
+			g.plan = [][]string{wait, {"@exec"}, {"cancel"}}
+		default:
+			g.plan = [][]string{wait, {"@exec"}, {"run"}, {"timer"}, {"reply", "err"}, {"cancel"}}
+		}
+		return []string{}
+	}
 	if g.burst > 0 {
 		if canExec && at != "select" {
 			g.burst--
@@ -1127,7 +1177,7 @@ func (g *gen) next(w *world) []string {
 
 // ---- test entry ------------------------------------------------------------------------
 
-const rule = "histories of harness ops (run/ready/timer/emit/finish/reply/cancel/tick) against the real BuildClient in a synctest bubble, mode 0 = Run in a loop with LaunchWorkerThread's rule, mode 1 = real LaunchWorkerThread; replies: none/idle/execute(ok|bad suffix|bad digest function)/unknown/RPC error/invalid timestamp, update bursts up to 14 (channel capacity 10), readiness failures, shutdown at a random step; non-trivial = an action was started, a running action was pre-empted by an idle/execute instruction, and at least one request was sent after shutdown began; distinct = hash of the applied op list"
+const rule = "histories of harness ops (run/ready/timer/emit/finish/reply/cancel/tick) against the real BuildClient in a synctest bubble, mode 0 = Run in a loop with LaunchWorkerThread's rule, mode 1 = real LaunchWorkerThread; replies: none/idle/execute(ok|bad suffix|bad digest function)/unknown/RPC error/invalid timestamp, update bursts up to 14 (channel capacity 10), readiness failures, shutdown at a random step, long polls (> 60 s) that hand out an action followed by shutdown before the next successful sync; non-trivial = an action was started, a running action was pre-empted by an idle/execute instruction, and at least one request was sent after shutdown began; distinct = hash of the applied op list"
 
 func replayOps(t *testing.T, lines []string) outcome {
 	mode := 0
@@ -1224,7 +1274,10 @@ func TestHarness(t *testing.T) {
 	mix = (mix ^ (mix >> 30)) * 0xBF58476D1CE4E5B9
 	mix = (mix ^ (mix >> 27)) * 0x94D049BB133111EB
 	rng := hx.NewRand(mix ^ (mix >> 31))
-	for h := 0; h < histories && len(res.Findings) == 0; h++ {
+	// A model/implementation disagreement does not end the search: the remaining
+	// histories are still run for a failing input of the property itself.
+	haveViolation, haveMismatch := false, false
+	for h := 0; h < histories && !haveViolation; h++ {
 		mode := 0
 		if rng.Chance(1, 3) {
 			mode = 1
@@ -1234,9 +1287,10 @@ func TestHarness(t *testing.T) {
 			g.left = 250
 		}
 		out := runReal(t, mode, g.next)
-		if out.monitor == "" {
+		if out.monitor == "" && !haveMismatch {
 			compare(&out, drv)
 		}
+		res.Histogram["long-poll-then-shutdown-plans"] += g.longPolls
 		res.Evaluations += len(out.ops)
 		res.TracesVsImpl++
 		res.Count(fmt.Sprintf("mode-%d", mode))
@@ -1252,7 +1306,11 @@ func TestHarness(t *testing.T) {
 			res.Histogram[k] += out.counts[k]
 		}
 		res.History(out.ops, out.flags["start"] && out.flags["preempt"] && out.flags["shutdown-sync"])
-		if out.monitor != "" || out.mismatch != "" {
+		if out.monitor != "" {
+			haveViolation = true
+			report(out)
+		} else if out.mismatch != "" && !haveMismatch {
+			haveMismatch = true
 			report(out)
 		}
 	}
